@@ -259,6 +259,23 @@ let run (op : string) (args : sx list) : sx =
   | "stream_write", [key; ws; plan] ->
       res_sx (fun ((_, k), oks) -> [sink_sx k [L (List.map sbool oks)]])
         (w_run !cs (seal (bytes_of key)) sink_write w_init (empty_sink (list_of bool_of plan)) (list_of bytes_of ws) [])
+  (* any history of Write / Close calls on one stream.Writer into a destination that logs what it is offered
+     and follows a plan of verdicts (StreamNonceFacts.w_ops, step by step so that each call's result is seen) *)
+  | "stream_ops", [key; ops; plan] ->
+      let sl = seal (bytes_of key) in
+      let rec go w d ops acc = match ops with
+        | [] -> L [A ":ok"; L (List.map sb (fst d)); L (List.rev acc);
+                   A (match w.w_st with WOpen -> ":open" | WFailed -> ":failed" | WClosed -> ":closed")]
+        | L [A ":write"; p] :: r ->
+            (match w_write !cs sl lwrite w d (bytes_of p) with
+             | Ok ((w', d'), n) -> go w' d' r ((match n with Some k -> si (int_of_nat k) | None -> A ":err") :: acc)
+             | Err c -> L [A ":err"; A (errclass_name c)] | Panic n -> L [A ":panic"; si (int_of_nat n)])
+        | A ":close" :: r ->
+            (match w_close !cs sl lwrite w d with
+             | Ok ((w', d'), ok) -> go w' d' r ((if ok then A ":nil" else A ":err") :: acc)
+             | Err c -> L [A ":err"; A (errclass_name c)] | Panic n -> L [A ":panic"; si (int_of_nat n)])
+        | x :: _ -> failwith ("op: " ^ show x) in
+      go w_init ([], list_of bool_of plan) (match ops with L l -> l | _ -> failwith "ops") []
   | "stream_read", [key; s; caps; dflt] ->
       res_sx (fun ((r, o), _) -> [sb r; outcome_sx o])
         (run_reader !cs (open_ (bytes_of key)) (src_of s) (list_of nat_of caps) (nat_of dflt))
@@ -343,6 +360,16 @@ let run (op : string) (args : sx list) : sx =
   | "cli_encrypt", [prev; d; l] ->
       let lib = (match l with A ":refused" -> LeRefused | L [A ":bytes"; b] -> LeBytes (bytes_of b) | x -> failwith (show x)) in
       let (ok, f) = encrypt_cli (fstate_of prev) (dev_of d) lib in L [sbool ok; fstate_sx f]
+  | "cli_flags", [v; d; e; p; a; r; rf; i; j; args] ->
+      let f = { f_version = bool_of v; f_d = bool_of d; f_e = bool_of e; f_p = bool_of p; f_a = bool_of a;
+                f_r = nat_of r; f_R = nat_of rf; f_i = nat_of i; f_j = nat_of j; f_args = nat_of args } in
+      (match validate f with
+       | VVersion -> A ":version" | VDecrypt -> A ":decrypt" | VEncrypt -> A ":encrypt"
+       | VReject w -> L [A ":reject"; A (match w with
+           | RTooManyArgs -> ":too-many-args" | RDecEnc -> ":d-e" | RDecArmor -> ":d-a" | RDecPass -> ":d-p"
+           | RDecRecipient -> ":d-r" | RDecRecipientsFile -> ":d-R" | REncIdentityWithoutE -> ":i-without-e"
+           | REncMissingRecipients -> ":missing-recipients" | REncPassWithRecipient -> ":p-r"
+           | REncPassWithRecipientsFile -> ":p-R" | REncPassWithIdentity -> ":p-i")])
   | "cli_keygen", [prev; d; k] ->
       let ((ok, f), mode) = keygen_cli (fstate_of prev) (dev_of d) (bytes_of k) in
       L [sbool ok; fstate_sx f; (match mode with None -> A ":none" | Some m -> si (int_of_n m))]
